@@ -7,7 +7,7 @@
 From Hive.Base Require Import Prelude.
 From Hive.Model Require Import Types KernelBase SimOps States Step.
 From Hive.Gen Require Import Kernels.
-From Hive.Proofs Require Import Trip VehFrame Macro DispInv Eligible.
+From Hive.Proofs Require Import Trip VehFrame Macro DispInv Eligible OneVeh.
 
 Theorem C17_enter_assigns : forall env vid rid route s s', enter_dispatch_trip env vid rid route s = Ok s' ->
   exists r, find rid (requests s) = Some r /\
@@ -44,6 +44,24 @@ Proof. exact Inv_disp_no_requests. Qed.
 (* the built-in dispatcher's request filter (closure regenerated from dispatcher.py) never offers a request that already records a vehicle *)
 Theorem C17_dispatcher_offers_only_unassigned_requests : forall fleet r vid, r_disp r = Some vid -> dispatcher_valid_request fleet r = false.
 Proof. exact assigned_request_never_offered. Qed.
+(* third sentence: under the built-in dispatcher at most one vehicle travels to any given request.  The dispatcher enters through
+   op_valid: in every batch the DispatchTrip instructions target requests that record nobody at the start of the batch (what
+   its request filter guarantees: C17_filter_makes_targets_free) and no two of them target the same request (the assignment solver's
+   contract, checked per instance by eng_c12); requests are admitted under ids no vehicle is travelling to. *)
+Theorem C17_one_vehicle_per_request_over_histories : forall env, (forall g, e_fence env g = true) -> forall ops s0,
+  vkeys s0 -> I2 s0 -> ops_valid env s0 ops ->
+  let s := fold_left (step_op env) ops s0 in
+  forall rid q v1 v2 x1 x2 r1 r2, find rid (requests s) = Some q ->
+    find v1 (vehicles s) = Some x1 -> v_state x1 = DispatchTrip rid r1 ->
+    find v2 (vehicles s) = Some x2 -> v_state x2 = DispatchTrip rid r2 -> v1 = v2.
+Proof. exact one_vehicle_per_request_over_histories. Qed.
+Theorem C17_filter_makes_targets_free : forall s is fleet,
+  (forall vid rid, In (IDispatchTrip vid rid) is -> forall q, find rid (requests s) = Some q -> dispatcher_valid_request fleet q = true) ->
+  forall vid rid, In (IDispatchTrip vid rid) is -> forall q, find rid (requests s) = Some q -> r_disp q = None \/ r_disp q = Some vid.
+Proof. exact filter_makes_targets_free. Qed.
+Theorem C17_one_vehicle_initial_state : forall s, requests s = PM.empty _ -> I2 s.
+Proof. exact I2_initial. Qed.
+Print Assumptions C17_one_vehicle_per_request_over_histories. Print Assumptions C17_filter_makes_targets_free. Print Assumptions C17_one_vehicle_initial_state.
 Print Assumptions C17_dispatcher_offers_only_unassigned_requests.
 
 Print Assumptions C17_invariant_over_histories. Print Assumptions C17_initial_state.
